@@ -156,7 +156,9 @@ def outer_clauses(chk, F, which):
                found=[repr(o.value)[:120] for o in outs], why='' if ok else 'values differ')
         # PartialEq is the builtin derive (structural equality is what == observes)
         from ..models import builtin_derive
-        for ty in [t for t in (model.outer, model.sub) if t]:
+        for ty in [t for t in (model.outer, model.sub) if t and t in F.adts]:
+            # (an element type from core - Option, a tuple - compares structurally by core's own derive; the scanner-private
+            # types it contains are reached through the fields of the outer type and are audited as part of C15's plain-data rule)
             ims = [im for im in F.impls if im.get('trait') == 'core::cmp::PartialEq' and im['self']['k'] == 'adt' and im['self']['path'] == ty]
             okd = len(ims) == 1 and builtin_derive(ims[0])
             chk.ob('%s/eq-is-structural/%s/%s/%s' % (PID, cfg, which, ty.split('::')[-1]), 'derived equality', 'proved' if okd else 'unproven',
